@@ -7,12 +7,14 @@
 //!   harness fcsched <cases-file> <results-file> [--jobs N]   (docs/FORMAT-fc.md)
 //!   harness fccase                       (child mode of fcsched)
 
+mod deletestress;
 mod fcsched;
 mod orderstress;
 mod puresweep;
 mod pushstress;
 mod racestress;
 mod seqcase;
+mod topicstress;
 mod seqdiff;
 mod util;
 
@@ -27,6 +29,8 @@ fn main() {
         Some("racestress") => racestress::main_racestress(&args[1..]),
         Some("orderstress") => orderstress::main_orderstress(&args[1..]),
         Some("pushstress") => pushstress::main_pushstress(&args[1..]),
+        Some("topicstress") => topicstress::main_topicstress(&args[1..]),
+        Some("deletestress") => deletestress::main_deletestress(&args[1..]),
         _ => {
             eprintln!(
                 "usage:\n  harness seqdiff <cases-file> <results-file> [--jobs N]\n  harness seqcase < case > result\n  harness puresweep <ops-file> <results-file>\n  harness fcsched <cases-file> <results-file> [--jobs N]\n  harness fccase < case > result"
